@@ -25,11 +25,11 @@ Definition show_state (s : state) : string :=
   ++ match st_err s with None => "ok" | Some e => show_exn e end.
 
 Inductive case :=
-| CRt (pb : bool) (e : sexp) (cuts : list N)      (* encode, then feed in chunks of the given sizes *)
-| CRaw (pb : bool) (data : list N) (cuts : list N)
+| CRt (lim : N) (pb : bool) (e : sexp) (cuts : list N)      (* encode, then feed in chunks of the given sizes *)
+| CRaw (lim : N) (pb : bool) (data : list N) (cuts : list N)
 | CB128 (n : N)
 | CFrom (digits : list N)
-| CHist (pb : bool) (es : list sexp) (cuts : list N).   (* several sendEncoded calls on one connection *)
+| CHist (lim : N) (pb : bool) (es : list sexp) (cuts : list N).   (* several sendEncoded calls on one connection *)
 
 (** cut [data] into chunks of the given sizes (a zero or missing size takes the rest) *)
 Fixpoint chunks (cuts : list N) (data : list N) : list (list N) :=
@@ -43,15 +43,15 @@ Fixpoint chunks (cuts : list N) (data : list N) : list (list N) :=
 
 Definition run_show (c : case) : string :=
   match c with
-  | CRt pb e cuts =>
-      match encode pb e with
+  | CRt lim pb e cuts =>
+      match encode lim pb e with
       | Err x => "E:" ++ show_exn x
-      | Ok b => show_hex b ++ "|" ++ show_state (feed_all pb init (chunks cuts b))
+      | Ok b => show_hex b ++ "|" ++ show_state (feed_all lim pb init (chunks cuts b))
       end
-  | CRaw pb d cuts => show_state (feed_all pb init (chunks cuts d))
+  | CRaw lim pb d cuts => show_state (feed_all lim pb init (chunks cuts d))
   | CB128 n => show_hex (b128 n) ++ "|" ++ show_N (from_le128 (b128 n))
   | CFrom d => show_N (from_le128 d)
-  | CHist pb es cuts =>
-      String.concat "" (map (fun e => if accepts pb e then "A" else "R") es) ++ "|" ++ show_hex (send_all pb es)
-      ++ "|" ++ show_state (feed_all pb init (chunks cuts (send_all pb es)))
+  | CHist lim pb es cuts =>
+      String.concat "" (map (fun e => if accepts lim pb e then "A" else "R") es) ++ "|" ++ show_hex (send_all lim pb es)
+      ++ "|" ++ show_state (feed_all lim pb init (chunks cuts (send_all lim pb es)))
   end.
